@@ -93,8 +93,11 @@ def concatenate(signals, /, axis=0):
         if not all(type(s) is sig_type for s in signals):
             raise TypeError("All signals must have same type!")
 
-    if not isinstance(axis, str) and axis < 0:
-        axis += signals[0].ndim
+    if not isinstance(axis, str):
+        ndim = signals[0].ndim
+        if not -ndim <= axis < ndim:
+            raise ValueError(f"axis {axis} is out of bounds for signals of dimension {ndim}.")
+        axis %= ndim
 
     ref_sr = signals[0].sample_rate
     # Equal up to rounding: even a relative difference of 1e-6 is a drift of
@@ -129,7 +132,7 @@ def concatenate(signals, /, axis=0):
 
     if isinstance(signals[0], pb.RadioSignal):
         ref_cbw = signals[0].chan_bw
-        if not all(u.isclose(ref_cbw, s.chan_bw) for s in signals):
+        if not all(u.isclose(ref_cbw, s.chan_bw, rtol=1e-12) for s in signals):
             raise ValueError("RadioSignals must have the same chan_bw!")
 
         if axis in {1, "freq"}:
